@@ -55,6 +55,48 @@ AliasBroken == {c \in AliasClasses : Cardinality(UNION {AddrOf(s) : s \in c}) # 
 LayoutDiff == {k \in DOMAIN Layout : ~(k \in DOMAIN F.layout /\ F.layout[k] = Layout[k])}
 ConstDiff == {k \in DOMAIN Constants : ~(k \in DOMAIN F.constants /\ F.constants[k] = Constants[k])}
 
+\* ---- the version map as a function of the compatibility flavour ------------------------------------------
+\* lib/libcrypt.map.in of the released series, transcribed: per symbol its default version ("-" = none) and its
+\* compatibility versions, each with the set of flavours that select it ({} = every flavour that has compat symbols).
+\* A binary built against SUSE's, Openwall's or ALT's glibc binds the Openwall extensions at the versions below; a
+\* libxcrypt configured with --enable-obsolete-api=<that flavour> (or =yes) must export them.
+MapIn == <<
+  [s |-> "crypt", d |-> "XCRYPT_2.0", c |-> <<[v |-> "GLIBC_2.0", t |-> {}]>>],
+  [s |-> "crypt_r", d |-> "XCRYPT_2.0", c |-> <<[v |-> "GLIBC_2.0", t |-> {}]>>],
+  [s |-> "crypt_rn", d |-> "XCRYPT_2.0", c |-> <<[v |-> "GLIBC_2.0", t |-> {"owl", "suse"}], [v |-> "GLIBC_2.2.1", t |-> {"alt"}]>>],
+  [s |-> "crypt_gensalt", d |-> "XCRYPT_2.0", c |-> <<[v |-> "GLIBC_2.0", t |-> {"owl", "suse"}], [v |-> "GLIBC_2.2.1", t |-> {"alt"}], [v |-> "OW_CRYPT_1.0", t |-> {"suse"}]>>],
+  [s |-> "crypt_gensalt_rn", d |-> "XCRYPT_2.0", c |-> <<[v |-> "GLIBC_2.0", t |-> {"owl", "suse"}], [v |-> "GLIBC_2.2.1", t |-> {"alt"}], [v |-> "OW_CRYPT_1.0", t |-> {"suse"}]>>],
+  [s |-> "crypt_ra", d |-> "XCRYPT_2.0", c |-> <<[v |-> "GLIBC_2.0", t |-> {"owl", "suse"}], [v |-> "GLIBC_2.2.2", t |-> {"alt"}]>>],
+  [s |-> "crypt_gensalt_ra", d |-> "XCRYPT_2.0", c |-> <<[v |-> "GLIBC_2.0", t |-> {"owl", "suse"}], [v |-> "GLIBC_2.2.2", t |-> {"alt"}], [v |-> "OW_CRYPT_1.0", t |-> {"suse"}]>>],
+  [s |-> "crypt_checksalt", d |-> "XCRYPT_4.3", c |-> <<>>], [s |-> "crypt_preferred_method", d |-> "XCRYPT_4.4", c |-> <<>>],
+  [s |-> "crypt_gensalt_r", d |-> "-", c |-> <<[v |-> "XCRYPT_2.0", t |-> {}]>>], [s |-> "xcrypt", d |-> "-", c |-> <<[v |-> "XCRYPT_2.0", t |-> {}]>>],
+  [s |-> "xcrypt_r", d |-> "-", c |-> <<[v |-> "XCRYPT_2.0", t |-> {}]>>], [s |-> "xcrypt_gensalt", d |-> "-", c |-> <<[v |-> "XCRYPT_2.0", t |-> {}]>>],
+  [s |-> "xcrypt_gensalt_r", d |-> "-", c |-> <<[v |-> "XCRYPT_2.0", t |-> {}]>>],
+  [s |-> "encrypt", d |-> "-", c |-> <<[v |-> "GLIBC_2.0", t |-> {}]>>], [s |-> "encrypt_r", d |-> "-", c |-> <<[v |-> "GLIBC_2.0", t |-> {}]>>],
+  [s |-> "setkey", d |-> "-", c |-> <<[v |-> "GLIBC_2.0", t |-> {}]>>], [s |-> "setkey_r", d |-> "-", c |-> <<[v |-> "GLIBC_2.0", t |-> {}]>>],
+  [s |-> "fcrypt", d |-> "-", c |-> <<[v |-> "GLIBC_2.0", t |-> {}]>> ] >>
+Flavours == {"yes", "glibc", "alt", "owl", "suse"}
+\* GLIBC versions below the platform's first glibc port are raised to it (x86_64: GLIBC_2.2.5)
+Floor == "GLIBC_2.2.5"
+Raised(v) == IF v \in {"GLIBC_2.0", "GLIBC_2.2", "GLIBC_2.2.1", "GLIBC_2.2.2"} THEN Floor ELSE v
+Selected(c, abi) == c.t = {} \/ abi = "yes" \/ abi \in c.t
+\* [symbol, version, default?] a library of flavour abi must export
+MapFor(abi) == UNION {(IF MapIn[i].d = "-" THEN {} ELSE {<<MapIn[i].s, MapIn[i].d, TRUE>>})
+                      \cup {<<MapIn[i].s, Raised(MapIn[i].c[j].v), FALSE>> : j \in {k \in 1..Len(MapIn[i].c) : Selected(MapIn[i].c[k], abi)}}
+                      : i \in 1..Len(MapIn)}
+\* consistency of the transcription with the observed releases: the distribution's library is the glibc flavour, the
+\* full compat set is the yes flavour (checked as an ASSUME: a wrong transcription stops the run, exit 2)
+ASSUME MapFor("glibc") = Released
+ASSUME MapFor("yes") = Released \cup ReleasedCompatAll
+\* facts: what the TREE's generators emit for each flavour -- the linker version script (maps) and the symver
+\* macros the sources apply (symvers); both must provide every pair of MapFor
+Pairs(list) == {<<list[i][1], list[i][2]>> : i \in 1..Len(list)}
+FlavourMissing ==
+  IF "maps" \notin DOMAIN F THEN {}
+  ELSE UNION {{<<abi, "version-script", x[1], x[2]>> : x \in {y \in MapFor(abi) : <<y[1], y[2]>> \notin Pairs(F.maps[abi])}}
+              \cup {<<abi, "symver-macros", x[1], x[2]>> : x \in {y \in MapFor(abi) : <<y[1], y[2]>> \notin Pairs(F.symvers[abi])}}
+              : abi \in Flavours}
+
 VARIABLE done
 Init == done = FALSE
 Next == done' = TRUE
@@ -62,5 +104,6 @@ Spec == Init /\ [][Next]_done
 Finish == done = FALSE \/
   JsonSerialize(IOEnv.XCV_VERDICT,
      [missing |-> {<<x[1], x[2]>> : x \in MissingSymbols}, alias |-> AliasBroken \cup {{s} : s \in VersionsDiffer}, layout |-> LayoutDiff, constants |-> ConstDiff,
-      exported |-> Cardinality(Exported), released |-> Cardinality(ReleasedHere)])
+      exported |-> Cardinality(Exported), released |-> Cardinality(ReleasedHere), flavour_missing |-> FlavourMissing,
+      flavour_pairs |-> [abi \in Flavours |-> Cardinality(MapFor(abi))]])
 =============================================================================
